@@ -92,6 +92,8 @@ def cases(rng, tier):
         yield Case([ptok(entry, a)], {"kind": "plots-single", "entry": entry, "args": a})
         m = rng.randint(1, 4)
         seqs = [gen.rand_seq(rng, rng.choice(gen.KINDS), rng.randint(5, 40)) for _ in range(m)]
+        if m >= 2 and rng.random() < 0.4:
+            seqs[-1] = gen.permute(seqs[0], rng)          # same composition: identical coordinates, its own marker and label
         labels = ["s%d" % i for i in range(m)] if rng.random() < 0.7 else []
         entry = rng.choice(["pl_show_multi_phase2", "pl_save_multi_phase2", "pl_show_multi_uversky2", "pl_save_multi_uversky2"])
         a = dict(kw, seqs=seqs, labels=labels, fmt=rng.choice(["png", "pdf"]))
@@ -106,6 +108,8 @@ def cases(rng, tier):
         yield Case(lines, {"kind": "plots-multi2", "entry": entry, "args": a})
         xs = [round(rng.random() * 0.5, 3) for _ in range(m)]
         ys = [round(rng.random() * 0.5, 3) for _ in range(m)]
+        if m >= 2 and rng.random() < 0.4:
+            xs[-1], ys[-1] = xs[0], ys[0]                   # two sequences at identical coordinates
         entry = rng.choice(["pl_show_multi_phase", "pl_save_multi_phase", "pl_show_multi_uversky", "pl_save_multi_uversky"])
         a = dict(kw, xs=xs, ys=ys, labels=labels, fmt=rng.choice(["png", "pdf"]))
         a.pop("label", None)
@@ -277,6 +281,8 @@ def judge(case, reals, gens, specs):
         polys = PHASE_POLYS if phase else UV_POLYS
         if len(d["polygons"]) != len(polys) or any(len(p) != len(q) or any(not (near(u[0], v[0]) and near(u[1], v[1])) for u, v in zip(p, q)) for p, q in zip(d["polygons"], polys)):
             bad("coloured regions %r are not the published polygons" % (d["polygons"],))
+        if d.get("marker_order") and d.get("polygon_order") and min(map(tuple, d["marker_order"])) < max(map(tuple, d["polygon_order"])):
+            bad("a coloured region is drawn over a marker: marker (zorder, order) %r, regions %r" % (d["marker_order"], d["polygon_order"]))
         if d["legend"] != a.get("legendOn", True):
             bad("legend %r" % d["legend"])
         # expected marker coordinates
